@@ -41,6 +41,8 @@ PROP = {'rule': 'rapid-generated cases. history: rapid state machine over one no
                  'unrequested view fits too (rounded up), validity (success => free >= request) uses the requested view only',
                  'events for one pod carry the allocation that was committed for it (Reserve result == annotation written by PreBind); '
                  'pod names are never reused',
+                 'a live pod whose device-allocated annotation was removed by an update (still assigned and running) holds nothing from that '
+                 'update on; its later events carry no allocation',
                  'with reservations the cache books reserve pod and owners on top of each other, so the over-commit clause is evaluated on the '
                  'allocations of the live NON-reserve pods (sum <= total while no capacity was removed, and after every commit on the devices it '
                  'touched); the ledger identities still include the reserve pods; completeness is not asserted for reservation cycles',
